@@ -38,7 +38,7 @@ pub fn tier(name: &str) -> Tier {
         Tier {
             miri: MiriCfg { seeds: 48, calls: 80, threads: 3, timeout_s: 1500 },
             name: "thorough",
-            sizes: PoolSizes { gen_per_ev: 4000, cross_texts: 1200, malformed_per_ev: 600, max_corpus: 2000 },
+            sizes: PoolSizes { gen_per_ev: 4000, cross_texts: 1200, malformed_per_ev: 600, extreme_per_ev: 500, max_corpus: 2000 },
             recheck_every: 1,
             det_seeds: 5000,
             short_runs: 2_000_000,
@@ -52,7 +52,7 @@ pub fn tier(name: &str) -> Tier {
         Tier {
             miri: MiriCfg { seeds: 4, calls: 30, threads: 3, timeout_s: 150 },
             name: "quick",
-            sizes: PoolSizes { gen_per_ev: 600, cross_texts: 110, malformed_per_ev: 60, max_corpus: 300 },
+            sizes: PoolSizes { gen_per_ev: 600, cross_texts: 110, malformed_per_ev: 60, extreme_per_ev: 80, max_corpus: 300 },
             recheck_every: 7,
             det_seeds: 200,
             short_runs: 40_000,
